@@ -106,6 +106,8 @@ matmul = Fn(U + 'matmul', ret='c', level='L1', valid=MMV, panics={1: 'REJECT', 2
                                  'assert(rv(at2(c@, n as int, i as int, j as int)) == psum(a@, l as int, false, b@, n as int, false, i as int, j as int, k as int + 1));')},
             },
             hints=[('return transpose(&matmul(b, a, rows_b, rows_a, false,\n                                    false), rows_b);', 'replace',
+                    'proof { assert(rows_b * cols_a == cols_a * rows_b) by(nonlinear_arith); assert(cols_a == (a@.len() as int) / (rows_a as int)); assert(cols_b == (b@.len() as int) / (rows_b as int)); '
+                    'assert(((b@.len() as int) / (rows_b as int)) == cols_b); assert((rows_b as int) * ((a@.len() as int) / (rows_a as int)) <= 0x7fff_ffff); } '
                     'let d_ = matmul(b, a, rows_b, rows_a, false, false); '
                     'proof { lemma_mul_div(rows_b as int, cols_a as int); lemma_mul_div(rows_a as int, cols_a as int); lemma_mul_div(rows_b as int, cols_b as int); } '
                     'let r_ = transpose(&d_, rows_b); '
